@@ -76,7 +76,7 @@ func main() {
 		name string
 		run  func()
 	}{
-		{"regression", runRegression}, {"bytes", runEveryByte}, {"short", runShort}, {"sub4", runSubAlphabets}, {"resident", runResident},
+		{"regression", runRegression}, {"bytes", runEveryByte}, {"short", runShort}, {"sub4", runSubAlphabets}, {"resident", runResident}, {"runs", runRunStructured},
 		{"macro", runMacro}, {"nonlatin1", runNonLatin1}, {"hints", runHints}, {"capacity", runCapacity}, {"sizes", runRequestedSizes},
 	}
 	only := os.Getenv("C02_ONLY") // development aid: comma-separated family names; the run is then marked incomplete
